@@ -858,8 +858,11 @@ func (vm *VirtualMachine) callFunction(
 	baseIP := vm.ip
 	baseSP := vm.sp
 
-	// Restore the previous frame when done
-	defer vm.resumeFrame(baseFP, baseIP, baseSP)
+	// Restore the previous frame when done. Nothing that is still above the
+	// caller's stack pointer at that point is a result: on success the result
+	// has already been popped, and after an error or a panic the interrupted
+	// frames may have left operands behind, which must not stay on the stack.
+	defer vm.unwindFrame(baseFP, baseIP, baseSP)
 
 	// Assemble frame local variables in vm.tmp. The local variable order is:
 	// 1. Function parameters
@@ -970,6 +973,21 @@ func (vm *VirtualMachine) resumeFrame(fp, ip, sp int) *frame {
 	vm.activeFrame = &vm.frames[fp]
 	vm.activeCode = vm.activeFrame.code
 	return vm.activeFrame
+}
+
+// Unwind to the frame at the given frame pointer, restoring the given IP and
+// SP and discarding everything above that SP.
+func (vm *VirtualMachine) unwindFrame(fp, ip, sp int) {
+	for i := vm.sp; i > sp; i-- {
+		vm.stack[i] = nil
+	}
+	if vm.sp > sp {
+		vm.sp = sp
+	}
+	vm.fp = fp
+	vm.ip = ip
+	vm.activeFrame = &vm.frames[fp]
+	vm.activeCode = vm.activeFrame.code
 }
 
 // Activate a frame with the given code. This is typically used to begin
